@@ -124,6 +124,14 @@ theorem pres_evalBool {I : Invariant P} {self} (hs : SelfOK I self) (stopOn : Bo
              · exact ⟨h1.1, fun _ _ => trivial⟩
              · exact ih _ s' h1.1)
 
+theorem pres_linkCompare {I : Invariant P} (op : String) (l r : PVal) :
+    Pres I (linkCompare P op l r) (fun _ => True) := by
+  intro st hst
+  unfold linkCompare
+  split
+  · exact ⟨hst, fun _ _ => trivial⟩
+  · split <;> exact ⟨hst, fun _ _ => trivial⟩
+
 theorem pres_evalChain {I : Invariant P} {self} (hs : SelfOK I self) (rest : List (String × Expr))
     (left result : PVal) : Pres I (evalChain P self left rest result) (fun _ => True) := by
   induction rest generalizing left result with
@@ -133,17 +141,10 @@ theorem pres_evalChain {I : Invariant P} {self} (hs : SelfOK I self) (rest : Lis
     unfold evalChain
     simp only [bind_eq, pure_eq]
     refine pres_bind (hs c) (fun right _ => ?_)
-    refine pres_bind (pres_lift _) (fun comp _ => ?_)
-    refine pres_bind (Q := fun _ => True) (fun st hst => ⟨hst, fun _ _ => trivial⟩) (fun st' _ => ?_)
+    refine pres_bind (pres_linkCompare op left right) (fun res _ => ?_)
     split
-    · refine pres_bind (pres_lift _) (fun res _ => ?_)
-      split
-      · exact pres_pure _ trivial
-      · exact ih right res
-    · refine pres_bind (pres_lift _) (fun res _ => ?_)
-      split
-      · exact pres_pure _ trivial
-      · exact ih right res
+    · exact pres_pure _ trivial
+    · exact ih right res
 
 theorem pres_evalIfs {I : Invariant P} {self} (hs : SelfOK I self) (cs : List Expr) :
     Pres I (evalIfs P self cs) (fun _ => True) := by
@@ -280,10 +281,8 @@ theorem pres_evalStep {I : Invariant P} {self} (hs : SelfOK I self) (e : Expr) :
       split
       · exact pres_pure _ trivial
       · split
+        · exact (pres_lift _).weaken (fun _ _ => trivial)
         · exact pres_throw _
-        · split
-          · exact (pres_lift _).weaken (fun _ _ => trivial)
-          · exact pres_throw _
     | unary op x =>
       simp only
       split
